@@ -79,3 +79,16 @@ func vAllocWatch(on bool) {
 	}
 }
 func vAllocs() int { return vAllocDelta }
+
+// C20 replays: bytes allocated since the last reset (runtime.MemStats.TotalAlloc)
+var vTotalAlloc0 uint64
+
+func vCostReset() {
+	runtime.ReadMemStats(&vMemStats)
+	vTotalAlloc0 = vMemStats.TotalAlloc
+}
+func vCostBytes() int {
+	runtime.ReadMemStats(&vMemStats)
+	return int(vMemStats.TotalAlloc - vTotalAlloc0)
+}
+func vAssertCost(c bool, id string) { vAssert(c, id) }
